@@ -50,8 +50,8 @@ func (o op) String() string {
 		return fmt.Sprintf("disc(p%d/%d)", o.P, o.S)
 	case "streams":
 		return fmt.Sprintf("streams(p%d/%d=%d)", o.P, o.S, o.Streams)
-	case "flush":
-		return fmt.Sprintf("flush(%d)", o.V)
+	case "flush", "yield":
+		return fmt.Sprintf("%s(%d)", o.K, o.V)
 	case "tag":
 		return fmt.Sprintf("tag(p%d,%s,%d)", o.P, o.Tag, o.V)
 	case "untag":
@@ -567,20 +567,20 @@ func (s *seqRun) apply(o op) *complaint {
 		return s.step(o.Ms)
 	case "trim":
 		g.cm.TrimOpenConns(context.Background())
-		synctest.Wait()
 		c["explicit_trims"]++
 		if cc := s.judge("explicit", g.rec.takeEvents(), true); cc != nil {
 			return cc
 		}
 	case "force":
 		g.cm.ForceTrim()
-		synctest.Wait()
 		c["force_trims"]++
 		if cc := s.judge("force", g.rec.takeEvents(), true); cc != nil {
 			return cc
 		}
 	}
-	synctest.Wait()
+	if o.K == "bump" || o.K == "dremove" {
+		synctest.Wait() // applied asynchronously by the decayer's goroutine
+	}
 	// closes outside any trim are not something the statement allows
 	if evs := g.rec.takeEvents(); len(evs) > 0 {
 		return &complaint{"trim:close-outside-trim", fmt.Sprintf("manager closed %s during %s", evString(evs), o)}
